@@ -168,3 +168,18 @@ Proof.
   - destruct H as (x & ? & ?); lra.
   - destruct H as (x & ? & ?); lra.
 Qed.
+
+(* membership in a box is decidable *)
+Lemma classic_in_box2 b p : in_box2 b p \/ ~ in_box2 b p.
+Proof.
+  unfold in_box2.
+  destruct (Rle_dec (vx (b2min b)) (vx p)), (Rle_dec (vx p) (vx (b2max b))),
+           (Rle_dec (vy (b2min b)) (vy p)), (Rle_dec (vy p) (vy (b2max b))); first [left; lra | right; lra].
+Qed.
+Lemma classic_in_box3 b p : in_box3 b p \/ ~ in_box3 b p.
+Proof.
+  unfold in_box3.
+  destruct (Rle_dec (wx (b3min b)) (wx p)), (Rle_dec (wx p) (wx (b3max b))),
+           (Rle_dec (wy (b3min b)) (wy p)), (Rle_dec (wy p) (wy (b3max b))),
+           (Rle_dec (wz (b3min b)) (wz p)), (Rle_dec (wz p) (wz (b3max b))); first [left; lra | right; lra].
+Qed.
